@@ -23,7 +23,7 @@ CHECK_DEADLOCK FALSE
 """
 
 
-def run(ctx):
+def _run_main(ctx):
     thorough = ctx.tier == "thorough"
     ctx.rule = ("scenario = privilege tree (2-4 levels, recursive trees), authenticated edges, default/configuration level, start mode, 1-4 operations from {acquire, command, configs, "
                 "configs-at-level, config, interactive, acquire-unknown}; non-trivial = some operation needs a path of >= 2 device lines or must be refused; distinct by scenario x segmentation")
@@ -62,3 +62,19 @@ def run(ctx):
             ctx.violation(rr["sig"], rr["detail"], rp)
     ctx.traces_validated = len(res)
     ctx.sample({"scenario": scns[1]})
+
+
+OPOPT_FIELDS = {"network.PrivilegeLevel"}   # the operation options this property relies on (OpOptions.tla; every other option is noise in any position)
+
+
+def run(ctx):
+    import json as _json
+    import opopts
+    if ctx.replay:
+        rp = _json.load(open(ctx.replay))["scenario"]
+        if rp.get("kind") == "opopts":
+            opopts.replay(ctx, "C04", OPOPT_FIELDS, rp)
+            return
+    _run_main(ctx)
+    if not ctx.replay:
+        opopts.stage(ctx, "C04", OPOPT_FIELDS, ctx.tier == "thorough")
